@@ -29,7 +29,11 @@ RULE = ("every tree of U(n) (all rooted shapes on n labelled leaves, n up to the
         "(one chain of 1 or 2 above any node incl. leaves and the root, or two single ones above any two nodes; every child "
         "order up to 4 leaves, as-generated and reversed above; every survivor subset x suppress {T,F}; each extraction "
         "result compared with the reference AND with prune_taxa / retain_taxa run in place on a fresh copy), and "
-        "Node.extract_subtree started at every inner node; a case = one API call on a freshly built tree; "
+        "Node.extract_subtree started at every inner node; plus a layer that is exhaustive only over a STATED FINITE SET "
+        "of 18 large representatives (left/right ladders with 12, 17, 33, 40, 65 tips, balanced trees with 16, 32, 64 leaves, "
+        "stars with 12, 33, 40, 100 tips, a broom of a 20-ladder ending in a 40-star; labels t000..tNNN; unit and 1-2-3 "
+        "lengths) x 10 named survivor sets x all twelve APIs x suppress {T,F} x update_bipartitions {F,T} with the same "
+        "oracles and the extraction == in-place agreement; a case = one API call on a freshly built tree; "
         "non-trivial = tree has >= 3 leaves")
 ASSUMPTIONS = [
     "reference induced subtree = `filtered` in this module, cross-checked on every (tree, subset) against mc/ref.induced, on "
@@ -88,12 +92,14 @@ def bounds(tier):
                 "layers_at_max": ["none", "unit", "cyc123", "pow2", "partial"],
                 "internal_taxa_max_leaves": 4, "internal_taxa_internal_prune_sets_only_at": 5, "containers_max_leaves": 4, "unifurcation_max_leaves": 4,
                 "unifurcation_all_orders_up_to": 4,
-                "node_extract_max_leaves": 5, "subsets": "all non-empty"}
+                "node_extract_max_leaves": 5, "subsets": "all non-empty",
+                "large_representatives": [big_name(d) for d in big_descriptors()], "large_layer": LARGE}
     return {"max_leaves": 6, "layers": ["none", "unit", "cyc123", "pow2", "partial"],
             "layers_at_max": ["none", "pow2", "partial"],
             "internal_taxa_max_leaves": 5, "internal_taxa_internal_prune_sets_only_at": 6, "containers_max_leaves": 5, "unifurcation_max_leaves": 5,
             "unifurcation_all_orders_up_to": 4,
-            "node_extract_max_leaves": 6, "subsets": "all non-empty"}
+            "node_extract_max_leaves": 6, "subsets": "all non-empty",
+            "large_representatives": [big_name(d) for d in big_descriptors()], "large_layer": LARGE}
 
 
 def chunks(tier):
@@ -127,6 +133,9 @@ def chunks(tier):
         for lo in range(0, ns, step):
             for part in range(parts):
                 out.append({"kind": "unif", "n": n, "lo": lo, "hi": min(ns, lo + step), "tier": tier, "parts": parts, "part": part})
+    for d in big_descriptors():
+        for lens in LARGE["length_patterns"]:
+            out.append({"kind": "big", "big": d, "lens": lens, "tier": tier})
     for n in range(3, b["node_extract_max_leaves"] + 1):
         ns = len(U.shapes(n))
         step = 200 if n >= 6 else 300
@@ -169,8 +178,124 @@ def _with_internal_taxa(sn):
     return ("X" + sn[1], sn[1], sn[2], tuple(_with_internal_taxa(c) for c in sn[3]))
 
 
+# ---------------------------------------------------------------------------
+# large representatives (size-triggered defects are invisible in U(n <= 6))
+
+LARGE = {
+    "ladder_tips_left_and_right_leaning": [12, 17, 33, 40, 65],
+    "balanced_binary_leaves": [16, 32, 64],
+    "star_tips": [12, 33, 40, 100],
+    "broom_ladder_tips_then_star_width": [[20, 40]],
+    "labels": "t000..tNNN",
+    "length_patterns": ["unit", "cyc123"],
+    "survivor_sets": ["first", "last", "first+last", "every-other", "every-third", "all-but-first", "all-but-last",
+                      "first-half", "one-deepest-cherry", "all"],
+    "prune_subtree_and_rejected_inner_node_at": ["first", "middle", "last non-root (inner) node in pre-order"],
+}
+
+
+def big_descriptors():
+    out = []
+    for k in LARGE["ladder_tips_left_and_right_leaning"]:
+        out += [["ladder", k, "L"], ["ladder", k, "R"]]
+    out += [["balanced", k] for k in LARGE["balanced_binary_leaves"]]
+    out += [["star", k] for k in LARGE["star_tips"]]
+    out += [["broom", a, b] for a, b in LARGE["broom_ladder_tips_then_star_width"]]
+    return out
+
+
+def _ladder(lo, k, lean):
+    s = lo
+    for i in range(lo + 1, lo + k):
+        s = (s, i) if lean == "L" else (i, s)
+    return s
+
+
+def _balanced(lo, hi):
+    if hi - lo == 1:
+        return lo
+    mid = (lo + hi) // 2
+    return (_balanced(lo, mid), _balanced(mid, hi))
+
+
+@functools.lru_cache(maxsize=64)
+def _big_shape(desc):
+    k = desc[0]
+    if k == "ladder":
+        return _ladder(0, desc[1], desc[2])
+    if k == "balanced":
+        return _balanced(0, desc[1])
+    if k == "star":
+        return tuple(range(desc[1]))
+    if k == "broom":        # a ladder whose deepest tip is replaced by a star
+        a, b = desc[1], desc[2]
+        s = tuple(range(b))
+        for i in range(b, b + a - 1):
+            s = (s, i)
+        return s
+    raise ValueError(desc)
+
+
+def big_size(desc):
+    return desc[1] + desc[2] - 1 if desc[0] == "broom" else desc[1]
+
+
+def big_name(desc):
+    return "-".join(str(x) for x in desc)
+
+
+def big_labels(n):
+    return ["t%03d" % i for i in range(n)]
+
+
+def big_keep(desc, name):
+    """the named survivor set of a large representative (labels)"""
+    n = big_size(desc)
+    lab = big_labels(n)
+    if name == "first":
+        return lab[:1]
+    if name == "last":
+        return lab[-1:]
+    if name == "first+last":
+        return [lab[0], lab[-1]]
+    if name == "every-other":
+        return lab[::2]
+    if name == "every-third":
+        return lab[::3]
+    if name == "all-but-first":
+        return lab[1:]
+    if name == "all-but-last":
+        return lab[:-1]
+    if name == "first-half":
+        return lab[:n // 2]
+    if name == "all":
+        return lab
+    if name == "one-deepest-cherry":
+        best = [(-1, None)]
+
+        def rec(s, d):
+            if isinstance(s, int):
+                return
+            lv = [c for c in s if isinstance(c, int)]
+            if len(lv) >= 2 and d > best[0][0]:
+                best[0] = (d, lv[:2])
+            for c in s:
+                rec(c, d + 1)
+        rec(_big_shape(tuple(desc)), 0)
+        return [lab[i] for i in best[0][1]]
+    raise ValueError(name)
+
+
+def _labels(case):
+    if case.get("big"):
+        return big_labels(case["n"])
+    return U.LABELS[:case["n"]]
+
+
 @functools.lru_cache(maxsize=4096)
-def source_snapshot(shape, lens, itaxa=False):
+def source_snapshot(shape, lens, itaxa=False, big=False):
+    if big:
+        return ref.mk(shape, lens=_lens(lens), labels=big_labels(len(U.shape_leaves(shape))), ilabels=_ilabel)
     sn = ref.mk(shape, lens=_lens(lens), ilabels=_ilabel)
     if itaxa:
         sn = _with_internal_taxa(sn)
@@ -256,6 +381,23 @@ def _lkey(x):
     return repr(x)
 
 
+def _fast_canon(node):
+    """children ordered by the smallest leaf label below them: a reordering of the tree, so equal
+    forms imply equal unordered trees (used as an accelerator only; ref.canon decides otherwise)"""
+    def rec(nd):
+        if not nd[3]:
+            return (nd[0], nd[1], nd[2], ()), (nd[0] if nd[0] is not None else "~")
+        kids = [rec(c) for c in nd[3]]
+        kids.sort(key=lambda x: x[1])
+        return (nd[0], nd[1], nd[2], tuple(k[0] for k in kids)), kids[0][1]
+    return rec(node)[0]
+
+
+def same_tree(a, b):
+    """unordered equality with lengths and labels"""
+    return _fast_canon(a) == _fast_canon(b) or ref.canon(a) == ref.canon(b)
+
+
 def classify(got, want, want_other_flag, modulo_unif=False):
     """None if `got` is the wanted tree (unordered, with lengths and labels), else
     the name of the first feature in which it differs.  modulo_unif: single-child
@@ -265,9 +407,9 @@ def classify(got, want, want_other_flag, modulo_unif=False):
     if modulo_unif:
         got, want = suppress_all(got), suppress_all(want)
         want_other_flag = None
-    if ref.canon(got) == ref.canon(want):
+    if same_tree(got, want):
         return None
-    if want_other_flag is not None and ref.canon(got) == ref.canon(want_other_flag):
+    if want_other_flag is not None and same_tree(got, want_other_flag):
         return "flag"
     if sorted(ref.leaves(got), key=_lkey) != sorted(ref.leaves(want), key=_lkey):
         return "leaf-set"
@@ -305,10 +447,15 @@ def classify_unrooted(got, want):
     return None
 
 
+@functools.lru_cache(maxsize=64)
+def _path_table_cached(node):
+    return ref.path_table(node)
+
+
 def path_problem(got, src, keep):
     """path lengths between surviving leaves unchanged"""
     a = ref.path_table(got)
-    b = ref.path_table(src)
+    b = _path_table_cached(src)
     for pair, (d, e) in b.items():
         if not pair <= keep:
             continue
@@ -323,6 +470,9 @@ def path_problem(got, src, keep):
 # one case
 
 def _src(case):
+    if case.get("big"):
+        shape = _big_shape(tuple(case["big"]))
+        return shape, source_snapshot(shape, case["lens"], False, True)
     shape = tup(case["shape"])
     lens = case["lens"]
     sn = source_snapshot(shape, lens, bool(case.get("itaxa")))
@@ -373,7 +523,7 @@ def _report_difference(ctx, case, sn, got, want, want_other, keep, unrooted_leni
     if unrooted_lenient:
         # encode_bipartitions on an unrooted tree may move the seed (documented), so the
         # comparison is modulo the seed position unless the trees are equal outright
-        if ref.canon(got) == ref.canon(want):
+        if same_tree(got, want):
             feat = None
         elif has_unifurcation(want) and not has_unifurcation(got) and classify_unrooted(got, suppress_all(want)) is None:
             feat = "flag"
@@ -444,7 +594,7 @@ def check_inplace(case, ctx):
     optional: container, recursive, accept_internal, itaxa + remove + flags"""
     shape, sn = _src(case)
     n = case["n"]
-    labels = U.LABELS[:n]
+    labels = _labels(case)
     api = case["api"]
     suppress, upd, rooted = case["suppress"], case["upd"], case["rooted"]
     kind = case.get("container", "list")
@@ -554,7 +704,7 @@ def check_subtree(case, ctx):
     """prune_subtree at the node with pre-order index `node`"""
     shape, sn = _src(case)
     n = case["n"]
-    labels = U.LABELS[:n]
+    labels = _labels(case)
     ns, bit = build.make_namespace(labels, case["ns"])
     tree = build.build_tree((case["rooted"], sn), ns)
     nodes = live_preorder(tree)
@@ -590,7 +740,7 @@ def check_extract(case, ctx):
     attr (extraction_source_reference_attr_name; '' = default), container, nofilter"""
     shape, sn = _src(case)
     n = case["n"]
-    labels = U.LABELS[:n]
+    labels = _labels(case)
     api = case["api"]
     suppress = case["suppress"]
     kind = case.get("container", "list")
@@ -723,7 +873,7 @@ def check_node_extract(case, ctx):
     """Node.extract_subtree started at the inner node with pre-order index `node`"""
     shape, sn = _src(case)
     n = case["n"]
-    labels = U.LABELS[:n]
+    labels = _labels(case)
     ns, bit = build.make_namespace(labels, case["ns"])
     tree = build.build_tree((case["rooted"], sn), ns)
     nodes = live_preorder(tree)
@@ -779,21 +929,26 @@ def check_unif_group(case, ctx):
     the result of pruning / retaining in place on a fresh copy (unordered, with lengths and
     labels) - the 'all agree' clause of the statement."""
     results = {}
-    apis = case.get("apis") or (GROUP_INPLACE + GROUP_EXTRACT)
+    big = bool(case.get("big"))
+    apis = case.get("apis") or ((INPLACE + ["extract_tree"] + WRAPPERS) if big else (GROUP_INPLACE + GROUP_EXTRACT))
     for api in apis:
         sub = dict((k, v) for k, v in case.items() if k != "apis")
         sub.update(kind="inplace" if api in INPLACE else "extract", api=api)
         if api in INPLACE:
             sub["upd"] = False
-        ctx.count("unifurcation_layer_calls")
+        ctx.count("large_tree_calls" if big else "unifurcation_layer_calls")
         ctx.case(_key(sub), nontrivial=case["n"] >= 2)
         results[api] = _check(sub, ctx)
     shape, sn = _src(case)
     nothing_excluded = len(case["keep"]) == case["n"]
-    modulo = case["suppress"] and nothing_excluded
+    modulo = case["suppress"] and nothing_excluded and bool(case.get("unif"))
+    suffix = "|source-has-unifurcations" if case.get("unif") else ""
+    normed = {}
 
-    def norm(x):
-        return ref.canon(suppress_all(x) if modulo else x)
+    def norm(a):
+        if a not in normed:
+            normed[a] = suppress_all(results[a]) if modulo else results[a]
+        return normed[a]
     for a in apis:
         if a in INPLACE or results.get(a) is None:
             continue
@@ -801,11 +956,13 @@ def check_unif_group(case, ctx):
             if b not in INPLACE or results.get(b) is None:
                 continue
             ctx.count("extraction_vs_inplace_agreements_checked")
-            if norm(results[a]) != norm(results[b]):
-                ctx.violation("%s|disagrees-with-in-place-%s|source-has-unifurcations" % (a, b),
+            if not same_tree(norm(a), norm(b)):
+                # one signature per extraction entry point; the message names the in-place one
+                ctx.violation("%s|disagrees-with-in-place-pruning%s" % (a, suffix),
                               "on %s with survivors %s, suppress_unifurcations=%r: %s gives %s but %s on a fresh copy gives %s" % (
                                   ref.to_newick(sn), case["keep"], case["suppress"], a, ref.to_newick(results[a]),
                                   b, ref.to_newick(results[b])), case)
+                break
 
 
 class _Probe(object):
@@ -885,6 +1042,8 @@ def run_chunk(chunk, ctx):
         return run_unif(chunk, ctx)
     if kind == "node_extract":
         return run_node_extract(chunk, ctx)
+    if kind == "big":
+        return run_big(chunk, ctx)
     raise ValueError(kind)
 
 
@@ -1104,6 +1263,43 @@ def run_unif(chunk, ctx):
                         continue          # would remove every leaf
                     for suppress in (True, False):
                         _do(dict(base, kind="subtree", api="prune_subtree", node=i, suppress=suppress, upd=False), ctx, "unifurcation_layer_calls", nt)
+    return None
+
+
+def run_big(chunk, ctx):
+    """large representatives: every API on a stated family of survivor sets"""
+    desc, lens = chunk["big"], chunk["lens"]
+    n = big_size(desc)
+    base = {"n": n, "big": list(desc), "lens": lens, "ns": "exact"}
+    shape, sn = _src(base)
+    cl = ref.clade_list(sn)
+    ctx.count("large_source_trees")
+    ctx.maximum("largest_tree_leaves", n)
+    for name in LARGE["survivor_sets"]:
+        keep = big_keep(desc, name)
+        for suppress in (True, False):
+            # all twelve entry points, update_bipartitions=False, + extraction == in-place agreement
+            check_unif_group(dict(base, kind="unifgroup", keep=keep, suppress=suppress, rooted=True), ctx)
+            # update_bipartitions=True, rooted and unrooted
+            for api in INPLACE:
+                for rooted in ((True, False) if api == "prune_taxa" else (True,)):
+                    _do(dict(base, kind="inplace", api=api, keep=keep, suppress=suppress, upd=True, rooted=rooted), ctx, "large_tree_calls", True)
+    nonroot = list(range(1, len(cl)))
+    inner = [i for i in nonroot if cl[i][1][3]]
+    for picks, what in ((nonroot, "subtree"), (inner, "inner")):
+        if not picks:
+            continue
+        for i in sorted(set([picks[0], picks[len(picks) // 2], picks[-1]])):
+            for suppress in (True, False):
+                if what == "subtree":
+                    for upd in (False, True):
+                        _do(dict(base, kind="subtree", api="prune_subtree", node=i, suppress=suppress, upd=upd, rooted=True), ctx, "large_tree_calls", True)
+                else:
+                    _do(dict(base, kind="extract", api="extract_tree", keep=big_labels(n), suppress=suppress, rooted=True,
+                             excluded=[cl[i][1][1]], apply_internal=True), ctx, "large_tree_calls", True)
+                    _do(dict(base, kind="node_extract", api="Node.extract_subtree", node=i, keep=sorted(cl[i][0]), suppress=suppress, rooted=True),
+                        ctx, "large_tree_calls", True)
+    ctx.sample({"large_tree": big_name(desc), "leaves": n, "lens": lens, "survivor_sets": LARGE["survivor_sets"]}, 1)
     return None
 
 
